@@ -36,8 +36,13 @@ FILE *fopen(const char *path, const char *mode) { if (g_npaths < 4) g_paths[g_np
 int fclose(FILE *f) { __CPROVER_assert(g_file_open == 1 && f == &g_file_obj, "fclose of the open file, once"); g_file_open--; return 0; }
 char *strerror(int e) { return "model error text"; }
 
-/* A8: getline: EOF, or the old buffer is released and a fresh NUL-terminated one holding 1..CLI_BYTES arbitrary bytes is
-   handed out (a getline that re-allocates on every call: the strictest legal behaviour for the caller) */
+/* A8: getline as glibc implements it (POSIX: "if *lineptr is a null pointer or the object is of insufficient size, an
+   object shall be allocated as if by malloc() or reallocated as if by realloc()"): EOF, or
+     - *lineptr == NULL or *n == 0: a fresh buffer is allocated and the old one, if any, is NOT released (glibc's getdelim
+       takes *n == 0 to mean "no buffer");
+     - otherwise the buffer is re-allocated (old one released, new one handed out: the strictest legal behaviour for
+       the caller's pointers);
+   the new buffer holds 1..CLI_BYTES arbitrary bytes and a terminating NUL, *n is its capacity. */
 ssize_t getline(char **lineptr, size_t *n, FILE *stream)
 {
     __CPROVER_assert(g_file_open == 1 && stream == &g_file_obj, "getline is called on the open file");
@@ -45,7 +50,7 @@ ssize_t getline(char **lineptr, size_t *n, FILE *stream)
     g_remaining--;
     size_t r = nondet_size();
     __CPROVER_assume(r >= 1 && r <= CLI_BYTES);
-    if (*lineptr != NULL) { free(*lineptr); g_live--; }
+    if (*lineptr != NULL && *n != 0) { free(*lineptr); g_live--; }
     char *b = malloc(CLI_BYTES + 1); __CPROVER_assume(b != NULL); g_live++;     /* constant capacity: no array theory needed */
     b[r] = 0;
     size_t z = 0; while (b[z] != 0) z++;                 /* the first NUL of the line as read, exactly */
